@@ -5,7 +5,7 @@ DEFAULT = {
     "yield": 22, "sleep": 8, "wait": 6, "set": 3, "forever": 3, "scope": 16, "cancel": 12, "shield": 3,
     "group": 10, "spawn": 10, "start": 0, "catch": 9, "raise": 3, "return": 1, "ntimeout": 0, "ntg": 0,
     "max_depth": 4, "max_stmts": 60, "ext": 2, "native_ext": 0, "wrap": 0, "configs": ["S", "S", "E", "U"],
-    "deadlines": True,
+    "deadlines": True, "patterns": {},
 }
 
 
@@ -122,11 +122,56 @@ def gen_program(g, prof):
 
     main = block(0, [], False)
     ext = []
+    # targeted shapes the uniform grammar reaches only rarely (weights per profile); the random program stays around
+    pats = prof.get("patterns") or {}
+    if pats and g.chance(pats.get("_chance", 25)):
+        which = g.weighted([(w, k) for k, w in sorted(pats.items()) if k != "_chance"])
+        if which == "late_spawn":
+            # a task outside group GI spawns into it k cycles after GI's last child signalled and returned
+            go, gi_, cs, cl, cc = new("g"), new("g"), new("c"), new("c"), new("c")
+            st["names"] += [go, gi_, cs, cl, cc]
+            st["groups"] += [go, gi_]
+            st["children"] += [cs, cl, cc]
+            inner_rest = [["yield", g.int(0, 2)]] if g.bool() else []
+            main = [["group", go, [
+                ["spawn", go, cs, "soon", [["wait", "e1"], ["yield", g.int(0, 3)],
+                                           ["spawn", gi_, cl, g.choice(["soon", "create"]),
+                                            [["yield", g.int(1, 3)], ["yield", 1]]]]],
+                ["group", gi_, [["spawn", gi_, cc, "soon", [["yield", g.int(0, 3)], ["set", "e1"]]]] + inner_rest],
+            ] + main]]
+        elif which == "double_cancel":
+            # two nested unshielded scopes cancelled in the same cycle while the task is runnable in a checkpoint;
+            # the task handles the first cancellation and then waits again inside both scopes
+            a, b = new("s"), new("s")
+            st["names"] += [a, b]
+            c = g.int(1, 4)
+            order = [a, b] if g.bool() else [b, a]
+            ext += [[c, "cancel", order[0]], [c, "cancel", order[1]]]
+            main = [["scope", a, False, None, [["scope", b, False, None, [
+                ["catch", "cancel", [["yield", g.int(1, 4)]], [["yield", g.int(0, 1)]], g.chance(30), "swallow"],
+                g.choice([["forever"], ["wait", "e0"], ["yield", 2], ["sleep", 5]]),
+                ["yield", 1]]]]]] + main
+        elif which == "sibling_double_cancel":
+            a, b, gg, c1, c2 = new("s"), new("s"), new("g"), new("c"), new("c")
+            st["names"] += [a, b, gg, c1, c2]
+            st["groups"].append(gg)
+            st["children"] += [c1, c2]
+            order = [a, b] if g.bool() else [b, a]
+            main = [["group", gg, [
+                ["spawn", gg, c1, "soon", [["scope", a, False, None, [["scope", b, False, None, [
+                    ["set", "e1"],
+                    ["catch", "cancel", [["yield", g.int(1, 3)]], [["yield", g.int(0, 1)]], False, "swallow"],
+                    g.choice([["forever"], ["wait", "e0"], ["yield", 2]])]]]]]],
+                ["spawn", gg, c2, "soon", [["wait", "e1"], ["yield", g.int(0, 1)],
+                                           ["cancel", order[0]], ["cancel", order[1]]]],
+            ]]] + main
     for _ in range(g.int(0, prof["ext"])):
         if not st["names"]:
             break
         kind = g.weighted([(70, "cancel"), (15, "set"), (prof["native_ext"] if st["children"] else 0, "native")])
         cyc = g.int(1, 30)
+        if ext and g.chance(30):
+            cyc = ext[-1][0]          # several external actions in one loop cycle
         if kind == "cancel":
             ext.append([cyc, "cancel", g.choice(st["names"])])
         elif kind == "set":
